@@ -234,7 +234,7 @@ Lemma find_app_none {A} (p : A -> bool) l1 l2 : Forall (fun x => p x = false) l1
 Proof. induction 1 as [|x l1 Hx _ IH]; [reflexivity|]. cbn. rewrite Hx. exact IH. Qed.
 
 Lemma other_tx_skipped mr t pre fs s fi :
-  C05Proofs.framed pre fs -> Forall (fun f => SS.tx_is t f = false) fs ->
+  Framing.framed pre fs -> Forall (fun f => SS.tx_is t f = false) fs ->
   SS.ref_client_result mr t (pre ++ s) fi = SS.ref_client_result mr t s fi.
 Proof.
   intros Hfr Hno. unfold SS.ref_client_result, Framing.ref_frames.
